@@ -54,6 +54,29 @@ struct IntermediateRep;
 }  // namespace detail
 
 // QuantityPoint implementation and API elaboration.
+namespace detail {
+// Apply an origin displacement to a `Quantity`.
+//
+// When the displacement is exactly `ZERO` (same origin), the value must come through untouched:
+// computing `x + 0` or `x - 0` would turn `-0.0` into `+0.0`, and quiet a signaling NaN.
+template <typename Q>
+constexpr Q plus_displacement(Q q, Zero) {
+    return q;
+}
+template <typename Q, typename D>
+constexpr auto plus_displacement(Q q, D d) {
+    return q + d;
+}
+template <typename Q>
+constexpr Q minus_displacement(Q q, Zero) {
+    return q;
+}
+template <typename Q, typename D>
+constexpr auto minus_displacement(Q q, D d) {
+    return q - d;
+}
+}  // namespace detail
+
 template <typename UnitT, typename RepT>
 class QuantityPoint {
     // Q: When should we enable IMPLICIT construction from another QuantityPoint type?
@@ -147,9 +170,10 @@ class QuantityPoint {
               typename = std::enable_if_t<IsUnit<AssociatedUnitForPointsT<NewUnit>>::value>>
     constexpr NewRep in(NewUnit u) const {
         using CalcRep = typename detail::IntermediateRep<Rep, NewRep>::type;
-        return (rep_cast<CalcRep>(x_) -
-                rep_cast<CalcRep>(
-                    OriginDisplacement<Unit, AssociatedUnitForPointsT<NewUnit>>::value()))
+        return detail::minus_displacement(
+                   rep_cast<CalcRep>(x_),
+                   rep_cast<CalcRep>(
+                       OriginDisplacement<Unit, AssociatedUnitForPointsT<NewUnit>>::value()))
             .template in<NewRep>(associated_unit_for_points(u));
     }
 
@@ -163,8 +187,10 @@ class QuantityPoint {
         // `rep_cast` is needed because if these are integral types, their difference might become a
         // different type due to integer promotion.
         return rep_cast<Rep>(
-                   x_ + rep_cast<Rep>(
-                            OriginDisplacement<AssociatedUnitForPointsT<NewUnit>, Unit>::value()))
+                   detail::plus_displacement(
+                       x_,
+                       rep_cast<Rep>(
+                           OriginDisplacement<AssociatedUnitForPointsT<NewUnit>, Unit>::value())))
             .in(associated_unit_for_points(u));
     }
 
